@@ -233,9 +233,17 @@ def split_tuple_assigns(fn: ast.FunctionDef) -> ast.FunctionDef:
             if isinstance(st, ast.Assign) and len(st.targets) == 1 and isinstance(st.targets[0], ast.Tuple) \
                     and isinstance(st.value, ast.Tuple) and len(st.targets[0].elts) == len(st.value.elts) \
                     and all(isinstance(e, ast.Name) for e in st.targets[0].elts):
-                names = {e.id for e in st.targets[0].elts}
-                if not any(isinstance(x, ast.Name) and x.id in names for v in st.value.elts for x in ast.walk(v)):
-                    out += [ast.Assign(targets=[t], value=v) for t, v in zip(st.targets[0].elts, st.value.elts)]
+                # identity components (`a, b = a, f(a)`) drop out; the rest may be sequenced when no remaining
+                # target is read by ANOTHER remaining right-hand side
+                pairs = [(t, v) for t, v in zip(st.targets[0].elts, st.value.elts)
+                         if not (isinstance(v, ast.Name) and v.id == t.id)]
+                ok = True
+                for i, (t, _) in enumerate(pairs):
+                    for j, (_, v) in enumerate(pairs):
+                        if i != j and any(isinstance(x, ast.Name) and x.id == t.id for x in ast.walk(v)):
+                            ok = False
+                if ok:
+                    out += [ast.Assign(targets=[t], value=v) for t, v in pairs]
                     continue
             for fld in ("body", "orelse", "finalbody"):
                 sub = getattr(st, fld, None)
